@@ -27,7 +27,7 @@ ASSUMPTIONS = [
     'writability is delivered by a scripted poller (BasePoller subclass) as one _write event per registered writer per round',
     'EAGAIN == EWOULDBLOCK on this platform',
 ]
-REQUIRED = ['payload_written_after_the_buffer_had_drained_completely', 'endpoint_server', 'endpoint_client', 'endpoint_file', 'partial_send_requeued', 'accept_zero', 'eagain_injected', 'eintr_injected',
+REQUIRED = ['unrelated_component_left_the_tree_while_data_was_buffered', 'payload_written_after_the_buffer_had_drained_completely', 'endpoint_server', 'endpoint_client', 'endpoint_file', 'partial_send_requeued', 'accept_zero', 'eagain_injected', 'eintr_injected',
             'enobufs_injected', 'fatal_injected', 'close_while_buffered', 'close_after_drain', 'two_connections_interleaved', 'two_clients_on_one_channel', 'connection_on_descriptor_number_zero', 'file_open_for_reading_and_writing', 'thousands_of_payloads_queued_at_once', 'more_payloads_queued_than_the_configured_backlog', 'empty_payload',
             'write_after_close_request', 'server_wide_close', 'text_payload_multibyte', 'close_requested_by_peer_eof', 'client_reconnected_after_end', 'client_reconnected_after_unsent_backlog']
 REQUIRED_OBLIGATIONS = ['PREFIX', 'ALL_DELIVERED', 'CLOSE_WAITS_FOR_BUFFER', 'NO_SEND_AFTER_CLOSE', 'FATAL_SIGNALLED', 'CLOSE_HAPPENS']
@@ -191,7 +191,18 @@ def make_world(endpoint, scripts, backlog=None, fmode='w', fdnum=None):
             root.tick()
         raise RuntimeError('does not settle')
 
-    W = {'root': root, 'poller': poller, 'signals': signals, 'settle': settle}
+    # components that have nothing to do with the endpoint (one beside it, one below the other): their leaving the tree is no business of the
+    # endpoint's (case option 'bystander_leaves')
+    class Bystander(BaseComponent):
+        channel = 'elsewhere'
+    by1 = Bystander().register(root)
+    by2 = Bystander().register(by1)
+
+    def bystander_leaves(which):
+        (by2 if which == 'leaf' else by1).unregister()
+        settle()
+
+    W = {'root': root, 'poller': poller, 'signals': signals, 'settle': settle, 'bystander_leaves': bystander_leaves}
     if endpoint == 'server':
         from circuits.net.sockets import TCPServer
         listen = Listen()
@@ -357,6 +368,12 @@ def run_case(case):
                 if case.get('close_all'):
                     marks.add('server_wide_close')
                     W['close_all']()   # close() without a socket: the whole server, every connection after its buffer drained
+            bl = case.get('bystander_leaves')
+            if bl and bl[0] == n:
+                # an unrelated component leaves the tree while (possibly) data is buffered: nothing changes for the endpoint
+                if any(scripts[j].accepted != written[j] for j in range(nconn)) or (endpoint == 'file' and accepted(0) != bytes(written[0])):
+                    marks.add('unrelated_component_left_the_tree_while_data_was_buffered')
+                W['bystander_leaves'](bl[1])
             if close_req[i]:
                 marks.add('write_after_close_request')
             if not data:
@@ -583,6 +600,16 @@ def corpus():
             for close_at in (None, 1, 2):
                 for pb in (True, False, 'drain'):
                     cs.append({'endpoint': 'file', 'fmode': fm, 'payloads': 'm', 'script': script, 'close_at': close_at, 'pump_between': pb})
+    # an unrelated component leaves the tree while data is buffered (between writes, before anything was polled / after partial sends)
+    for endpoint in ('server', 'client', 'file'):
+        for script in (['P', 'EAGAIN', 'P'], ['EAGAIN', 'Z', 'P', 'P']):
+            for at in (1, 2):
+                for which in ('leaf', 'branch'):
+                    for pb in (True, False):
+                        cs.append({'endpoint': endpoint, 'payloads': 'm', 'script': script, 'close_at': None, 'pump_between': pb, 'bystander_leaves': [at, which]})
+    cs.append({'endpoint': 'client', 'tee': True, 'payloads': 'm', 'script': ['P', 'EAGAIN'], 'script2': ['Z', 'P'], 'close_at': None, 'pump_between': False,
+               'bystander_leaves': [2, 'branch']})
+    cs.append({'endpoint': 'server', 'two': True, 'payloads': 's', 'script': ['P', 'EAGAIN'], 'script2': ['EINTR', 'P', 'Z'], 'close_at': 3, 'bystander_leaves': [2, 'leaf']})
     # more payloads queued at once than the endpoint's configured numbers (listen backlog 5000 by default, or a small one given)
     for endpoint in ('server', 'client', 'file'):
         cs.append({'endpoint': endpoint, 'payloads': 's', 'flood': 5300, 'script': ['EAGAIN', 'P', 'EINTR'], 'close_at': None, 'pump_between': False})
@@ -614,6 +641,8 @@ def gen_case(rng):
     pset = rng.choice('semu' if endpoint == 'file' else 'sem')
     case = {'endpoint': endpoint, 'payloads': pset, 'script': script,
             'close_at': rng.choice([None, 0, 1, 2, len(PAYLOAD_SETS[pset]) - 1]), 'pump_between': rng.choice([True, True, True, False, 'drain'])}
+    if rng.random() < 0.15:
+        case['bystander_leaves'] = [rng.randint(0, len(PAYLOAD_SETS[pset]) - 1), rng.choice(['leaf', 'branch'])]
     if endpoint == 'file' and rng.random() < 0.5:
         case['fmode'] = rng.choice(['w+', 'a+', 'r+', 'a'])
     if endpoint != 'file' and rng.random() < 0.1:
